@@ -306,7 +306,7 @@ Print Assumptions C20_trace_in_every_world.
    are followed (<= 9 hops), unexpected-status for a 3xx handed back, an ordinary error after
    the 10th request or when the context is cancelled in flight; never data with an error *)
 Theorem C20_result_in_every_world : forall cfg w ep,
-  base_wf cfg = true -> options_valid ep = true -> permitted w ep = true -> w_hop_status w <> 200 ->
+  base_wf cfg = true -> options_valid ep = true -> permitted w ep = true -> redirect_status_ok w = true ->
   let o := call_w cfg w ep in
   match spec_result_w w ep with
   | XData l => o_err o = None /\ o_data o = Some l
@@ -369,6 +369,16 @@ Theorem C20_decimal_texts_denote_their_numbers : forall z ids,
   (ids <> [] -> split_on "," (join (lit ",") (map dec ids)) = map dec ids).
 Proof. intros z ids. split; [exact (dec_reads_back z)|exact (ids_split_back ids)]. Qed.
 Print Assumptions C20_decimal_texts_denote_their_numbers.
+
+(* 19. the package-level entry points (osmapi.Node, osmapi.Nodes, ..., 27 functions): each exists
+   and its body is exactly `return DefaultDatasource.<same name>(<its own parameters>)` (read by
+   the translator; any other body is a translator error), so every statement above holds for them
+   with the configuration of DefaultDatasource; exercised by the harness class package-level *)
+Theorem C20_package_functions_delegate :
+  forallb (fun m => existsb (String.eqb (m_name m)) GenOsmapi.package_functions) GenOsmapi.methods = true
+  /\ List.length GenOsmapi.package_functions = List.length GenOsmapi.methods.
+Proof. exact package_functions_cover_methods. Qed.
+Print Assumptions C20_package_functions_delegate.
 
 (* ---------- non-vacuity ---------- *)
 
